@@ -217,12 +217,18 @@ def run(ctx, rep):
                 rep.ok("R-REPR", "ArcUnion has one non-zero-sized field, a NonNull", cfg=tag)
             else:
                 rep.bad("R-REPR", "ArcUnion has one non-zero-sized field, a NonNull", "ArcUnion's fields are %s" % [F.ts(f["ty"]) for f in adt["variants"][0]["fields"]], None, tag)
-    from . import c05
+    from . import c05, c12
 
     c05.rule_data_offset(ctx, rep)
+    # ---------------------------------------------------------- R-UNION-ADDR: the ArcBorrow an ArcUnion hands out carries the value's address
+    for tag, F, E in ctx.each():
+        u = F.adts.get(F.handle_paths.get("ArcUnion", ""))
+        if u:
+            c12.tag_rules(F, rep, tag, [g["name"] for g in u["generics"] if g["kind"] == "type"], rule="R-UNION-ADDR")
     # ---------------------------------------------------------- R-WIDTH: compile-time layout witnesses
     c13.rule_witnesses(ctx, rep, prefix="c11_")
     rep.floor("R-RAWPAIR", 18, "value address, agreement, round trips, OffsetArc/ArcBorrow forms, heap_ptr")
+    rep.floor("R-UNION-ADDR", 5, "stored word = into_raw | tag (2 constructors), tests, strip on both variants")
     rep.floor("R-NOREF", 5, "accessors whose result is fed back to from_raw")
     rep.floor("R-REPR", 6, "five transparent handles + ArcUnion")
     rep.floor("R-STABLE", 2, "StableDeref and CloneStableDeref for Arc")
